@@ -34,7 +34,7 @@ func NewChunkWithID(id ChunkID, b []byte, skipVerify bool) (*Chunk, error) {
 		return c, nil
 	}
 	sum := c.ID()
-	if sum != id {
+	if sum != id || !c.idCalculated { // ID() answers the zero ID for data it can't decode
 		return nil, ChunkInvalid{ID: id, Sum: sum}
 	}
 	return c, nil
@@ -50,7 +50,7 @@ func NewChunkFromStorage(id ChunkID, b []byte, modifiers Converters, skipVerify 
 		return c, nil
 	}
 	sum := c.ID()
-	if sum != id {
+	if sum != id || !c.idCalculated { // ID() answers the zero ID for data it can't decode
 		return nil, ChunkInvalid{ID: id, Sum: sum}
 	}
 	return c, nil
